@@ -254,6 +254,32 @@ fn long_haystacks(r: &mut Runner, rev: bool) {
             }
         }
     }
+    // residue sweep: the match at every position of a 1100-byte window in
+    // the middle of a two-page haystack (every residue modulo 16 unrolled
+    // vectors of any width), a decoy on the far side so that a skipped
+    // position changes the answer
+    let sweeps: &[usize] = if r.tier == Tier::Thorough { &[8192, 8192 + 37, 16384 + 5] } else { &[8192 + 37] };
+    for &len in sweeps {
+        for p in len / 2 - 550..len / 2 + 550 {
+            unit += 1;
+            if !r.mine(unit) {
+                continue;
+            }
+            let nd = [0xFFu8, b'\n', 0x00];
+            let mut buf = vec![b'x'; len];
+            buf[p] = nd[p % 3];
+            let decoy = if rev { 3 } else { len - 4 };
+            buf[decoy] = nd[(p + 1) % 3];
+            let place = [Place::GuardR, Place::GuardL, Place::Arena(1), Place::Arena(33)][p % 4];
+            for &api in &apis {
+                // the planted byte must be one of this api's needles
+                let k = api.n as usize;
+                if p % 3 < k {
+                    r.run0(api, &buf, &nd[..k], place, Place::Heap, true);
+                }
+            }
+        }
+    }
 }
 
 /// Boundary-focused sample for Miri.
